@@ -11,6 +11,9 @@
 //!        "@cidK+<how>" is a RESPELLING of that id which the service never handed out: zero ("0" + id),
 //!        zeros ("000" + id), plus ("+" + id), upper (hex digits in upper case), spb / spa (a space
 //!        before / after), junk (id + "g")
+//!        an element `(sleep <seconds>)` between requests lets real time pass (thorough tier only)
+//!   Before every case the harness calls Start on a fresh connection; a service that does not answer
+//!   (e.g. a panic while the table was locked) is restarted, so that one input cannot fail the cases after it.
 //!   (race <n> <rounds>)  per round: Start on a control connection, then n connections send the SAME
 //!        canonical step under that one client id at the same moment (barrier), for Test01..Test10;
 //!        Test11 once; then End raced as well
@@ -85,7 +88,7 @@ fn start_server(ctx: &Ctx) {
     let mut cmd = Command::new(server_bin());
     cmd.arg(format!("--varlink=unix:{}", path))
         .arg("--timeout")
-        .arg("30") // exits by itself when idle, should the harness be killed
+        .arg("120") // exits by itself when idle, should the harness be killed
         .stdin(Stdio::null())
         .stdout(Stdio::null())
         .stderr(Stdio::null());
@@ -112,6 +115,26 @@ fn start_server(ctx: &Ctx) {
 fn stop_server() {
     let mut g = SERVER.lock().unwrap();
     *g = None; // Drop kills, reaps, removes the socket
+}
+
+/// is the certification interface still answering?  (`Start` on a fresh connection)
+fn service_answers(path: &str) -> bool {
+    match connect(path) {
+        Some(mut c) => {
+            let (replies, _) = exchange(&mut c, b"{\"method\":\"org.varlink.certification.Start\"}", 999_999);
+            new_id_of(&replies).is_some()
+        }
+        None => false,
+    }
+}
+
+fn ensure_service(ctx: &Ctx) {
+    start_server(ctx);
+    let path = server_path();
+    if !service_answers(&path) {
+        stop_server();
+        start_server(ctx);
+    }
 }
 
 fn server_path() -> String {
@@ -284,6 +307,10 @@ fn run_cert(qs: &[Sx]) -> Sx {
     let mut out = vec![];
     for (n, q) in qs.iter().enumerate() {
         let ql = q.as_list().expect("q");
+        if ql[0].as_atom() == Some("sleep") {
+            std::thread::sleep(Duration::from_secs(ql[1].as_usize().expect("seconds") as u64));
+            continue;
+        }
         let ci = ql[1].as_usize().expect("conn");
         let tree = subst_out(&ql[3], &ids, &mut sent);
         let mut text = String::new();
@@ -966,6 +993,54 @@ impl Suite for CertSuite {
             qs.push(canon_q(1, pos, 0)); // client 0's step sent over client 1's connection: ids, not connections, count
             out.push(case(qs, vec!["other-client".into()]));
         }
+        // E1. refused ids of every length around 8 / 16 / 32 bytes, with multi-byte characters at every offset
+        //     around those lengths; after EACH refused request a fresh canonical client must still be served
+        //     (a refused request never affects other clients)
+        {
+            let mut long_ids: Vec<String> = vec![];
+            for (ch, w) in [("é", 2usize), ("日", 3), ("😀", 4)] {
+                for boundary in [8usize, 16, 32] {
+                    // the multi-byte character starts 1..w-1 bytes before the boundary: it straddles it
+                    for before in 1..w {
+                        let lead = boundary - before;
+                        let mut id = "a".repeat(lead);
+                        id.push_str(ch);
+                        while id.len() < boundary + 1 + (boundary % 7) {
+                            id.push_str(ch);
+                        }
+                        long_ids.push(id);
+                    }
+                    // and exactly at it
+                    let mut id = "0".repeat(boundary);
+                    id.push_str(ch);
+                    long_ids.push(id);
+                }
+                long_ids.push(ch.repeat(64 / w));
+                long_ids.push(format!("a{}", ch.repeat(12)));
+            }
+            long_ids.push("f".repeat(17));
+            long_ids.push("0123456789abcdef0".into());
+            long_ids.push("x".repeat(64));
+            for (i, id) in long_ids.iter().enumerate() {
+                let pos = 1 + (i % (nsteps - 1));
+                let mut qs = vec![q(0, "dev", sx::json(&canon_request(pos, id)))];
+                // a fresh canonical client on another connection, and one on the same connection
+                qs.extend(prefix(1, 0, 3));
+                qs.push(q(0, "dev", sx::json(&canon_request(pos, id))));
+                qs.push(canon_q(0, 3, 0));
+                out.push(case(qs, vec!["long-refused-id".into(), format!("idlen:{}", id.len()), "class:dev".into()]));
+            }
+            // the same while the sender is a live client itself (its own id stays good)
+            for (i, id) in long_ids.iter().enumerate().filter(|(i, _)| i % 4 == 0) {
+                let pos = 1 + (i % (nsteps - 1));
+                let mut qs = prefix(0, 0, pos);
+                qs.push(q(0, "dev", sx::json(&canon_request(pos, id))));
+                qs.push(canon_q(0, pos, 0));
+                qs.extend(prefix(1, 1, 2));
+                out.push(case(qs, vec!["long-refused-id".into(), format!("idlen:{}", id.len()), "class:dev".into()]));
+            }
+        }
+
         // E2. ids are strings: a respelling of a LIVE id (leading zero(s) or plus, upper-case hex digits,
         //     blanks, trailing junk) is an id the service never handed out, at every step the live id is at
         for pos in 1..nsteps {
@@ -1132,6 +1207,17 @@ impl Suite for CertSuite {
             });
         }
 
+        // L. real time (thorough only): a client that pauses for 46 s between two steps is still known
+        //    (ids live for 12 h; the rule itself is extracted into the model on every run, see C19_id_alive_for_12h)
+        if ctx.thorough {
+            let mut qs = prefix(0, 0, 2);
+            qs.push(sx::tagged("sleep", vec![sx::nat(46)]));
+            for p in 2..nsteps {
+                qs.push(canon_q(0, p, 0));
+            }
+            out.push(case(qs, vec!["real-time-pause".into(), "class:canon".into()]));
+        }
+
         // K. many clients in flight at once: the table has no capacity, nobody is dropped before End
         let many: &[usize] = if ctx.thorough { &[1023, 1024, 1025, 1100, 3000] } else { &[1025, 3000] };
         for n in many {
@@ -1153,7 +1239,7 @@ impl Suite for CertSuite {
     }
 
     fn run(&self, ctx: &Ctx, input: &Sx) -> Sx {
-        start_server(ctx);
+        ensure_service(ctx);
         let l = input.as_list().expect("case");
         match l[0].as_atom().unwrap_or("") {
             "cert" => run_cert(&l[1..]),
